@@ -91,7 +91,7 @@ structure GenCfg where
   nilRootPanics : Bool := false   -- repaired in /repo (fix: typed-nil roots …)
   /-- `true` (original library): Assign/AssignBuf (hence Set) dereference a nil pointer passed as the
       source value (`*src.(*int)` in every arm of the type switches). -/
-  assignNilSrcPanics : Bool := true
+  assignNilSrcPanics : Bool := false   -- repaired in /repo (fix: Assign/AssignBuf dereferenced a nil pointer source)
   /-- `true` (original emitter): Loop renders a pointer-typed map key with `*k` without a nil test, so a nil
       pointer key panics when the iterator asks for keys (compiler.go:785-800). Repaired: the key text of a
       nil pointer key stays empty. -/
@@ -101,7 +101,7 @@ deriving Repr, Inhabited
 /-- The configuration that mirrors the tree as it is (flags flip when a `fix:` commit lands). -/
 def GenCfg.repo : GenCfg := {}
 /-- The tree as it was at the pinned commit (1c76ae3), before the `fix:` commits in /repo. -/
-def GenCfg.original : GenCfg := { GenCfg.repo with strAppendsOld := true, negIndexPanics := true, loopRootMapSkipped := true, loopNilKeyPanics := true, nilRootPanics := true, resetNilPtrPanics := true, fallThroughAlways := true, nilInterceptAnyDepth := true }
+def GenCfg.original : GenCfg := { GenCfg.repo with strAppendsOld := true, negIndexPanics := true, loopRootMapSkipped := true, loopNilKeyPanics := true, nilRootPanics := true, resetNilPtrPanics := true, fallThroughAlways := true, nilInterceptAnyDepth := true, assignNilSrcPanics := true }
 /-- Every listed defect repaired: the configuration the property theorems are proved for. -/
 def GenCfg.fixed : GenCfg where
   fallThroughAlways := false
